@@ -302,10 +302,16 @@ def r14_5(ctx):
     ctx.check(vcalls and not any(v in reach_t for v in vcalls), "timeout-not-validated", cb.where(),
               "a timed-out output is never handed to validate (cannot become a pass)")
     incs = _counter_incs(cb)
-    t_inc = [c for c in incs if c[0] in reach_t and not any(c[0] in reach_consistent(cb, ve[v], {pk: v}) for v in others)]
-    ctx.check(len(t_inc) == 1 and t_inc[0][2] == "count_failed", "timeout-counted", cb.where(),
+    # every path from the Timeout edge passes exactly one counter increment and it is count_failed (path-sensitive: the result built on
+    # that edge is Err, so a later `match result { Ok => success, Err => failed }` takes only its Err arm)
+    t_inc = [c for c in incs if c[0] in reach_t]
+    inc_blocks = sorted({c[0] for c in t_inc})
+    must = bool(inc_blocks) and not any(rb in reach_consistent(cb, ve["Timeout"], {pk: "Timeout"}, removed_blocks=inc_blocks) for rb in cb.return_blocks())
+    once = all(not any(b2 in cb.reachable(s_) for s_ in cb.succ(b1) for b2 in inc_blocks) for b1 in inc_blocks) and \
+        all(len([c for c in t_inc if c[0] == b]) == 1 for b in inc_blocks)
+    ctx.check(must and once and all(c[2] == "count_failed" for c in t_inc), "timeout-counted", cb.where(),
               "the timed-out test case increments count_failed exactly once",
-              "the Timeout edge increments %s" % [c[2] for c in t_inc])
+              "the Timeout edge increments %s (on every path: %s, at most once: %s)" % ([c[2] for c in t_inc], must, once))
     # remainder becomes Skipped: closure constructing TestCaseError::Skipped fed by skip(outputs.len())
     o = Origins(run)
     skipped_closures = [c for c in prog.closures_of(run) if any(True for _ in aggregates(c, "TestCaseError", "Skipped"))]
